@@ -394,6 +394,12 @@ func TestDeterminism(t *testing.T) {
 		hb, _ := json.Marshal(res.History)
 		db, _ := json.Marshal(res.Decisions)
 		fmt.Printf("DET %s %d %s %s %s\n", prop, i, res.StateHash, hashStrings([]string{string(hb)}), hashStrings([]string{string(db)}))
+		if dd := os.Getenv("KAISIM_DET_DUMP"); dd != "" {
+			b, _ := json.MarshalIndent(map[string]any{"property": prop, "class": "DET/dump", "script": s}, "", " ")
+			_ = os.WriteFile(fmt.Sprintf("%s/det-%s-%d.json", dd, prop, i), b, 0o644)
+			tb, _ := json.MarshalIndent(res, "", " ")
+			_ = os.WriteFile(fmt.Sprintf("%s/det-%s-%d.%s.trace.json", dd, prop, i, os.Getenv("KAISIM_DET_TAG")), tb, 0o644)
+		}
 		i++
 	})
 }
